@@ -2,6 +2,7 @@
 From KV Require Import Res.MapSites Res.MapSitesProofs Gen.MapRanges.
 From KV Require Import Base.Prelude.
 From KV Require Import Glob.OpenApiState Glob.OpenApiStateProofs Glob.OpenApiHistoryProofs Glob.FullState.
+From KV Require Import Glob.Conc Glob.GlobalsTypes Glob.GlobalsAllow Glob.GlobalsCheck Glob.GlobalsProofs Gen.Globals.
 
 (* Every `range` over a map in the kustomize packages imported by krusty either collects keys that are
    sorted afterwards, only builds sets/maps/booleans, or is one of the hand-justified sites of Res/MapSites.v.
@@ -53,6 +54,24 @@ Theorem Gen_written_globals_closed :
    "kyaml/openapi.kubernetesOpenAPIVersion"].
 Proof. exact written_globals_closed. Qed.
 Print Assumptions Gen_written_globals_closed.
+
+(* ... and every package-level object that is only initialised once but whose reference is used by calls / method calls
+   outside initialisers (a `var memo = &cache{}` / `var digest = sha256.New()` style object: state that could be mutated
+   behind the "written" analysis) is excused by type or by name with a reason (Glob/GlobalsAllow.v), no excuse is stale.
+   Together with Gen_written_globals_closed: ANY new package-level variable that a build can write — assigned, updated
+   through (maps, fields, elements), sync.Map / atomic method calls, address-taken, or mutated through its methods — in
+   any kustomize package of the import closure of api/krusty breaks one of the two obligations. *)
+Theorem Gen_shared_objects_excused : vars_ok var_prots allow_list gen_global_vars = true.
+Proof. exact globals_vars_covered. Qed.
+Print Assumptions Gen_shared_objects_excused.
+
+(* Determinism of the schema index: no function iterates (`range`) over a package-level map of kyaml/openapi — parse()
+   ranges only over the maps of the incoming document. (An index rebuilt by ranging over the ACCUMULATED definitions
+   picks, among several stored definitions claiming one group/version/kind, a winner by Go's randomised iteration
+   order: such a loop shows up as an AMapRange row of Gen/Globals.v and breaks this obligation.) *)
+Theorem Gen_no_range_over_schema_maps : range_rows "kyaml/openapi." gen_accesses = [].
+Proof. exact globals_no_range_over_schema_maps. Qed.
+Print Assumptions Gen_no_range_over_schema_maps.
 
 (* History independence over the full state vector (OpenAPI state machine + the once-parsed default transformer
    configuration, of which builds only see deep copies of a compile-time constant). *)
